@@ -4,8 +4,11 @@ package dcs
 
 import (
 	"fmt"
+	"reflect"
 	"sort"
+	"strings"
 	"time"
+	"unsafe"
 
 	"github.com/yandex/mysync/internal/verif/sim"
 )
@@ -25,7 +28,78 @@ func VerifState(d DCS) string {
 	sort.Strings(locks)
 	z.connectedLock.Lock()
 	defer z.connectedLock.Unlock()
-	return fmt.Sprintf("connected=%v closeTimer=%v locks=%v", z.isConnected, z.closeTimer != nil, locks)
+	return fmt.Sprintf("connected=%v closeTimer=%v locks=%v", z.isConnected, z.closeTimer != nil, locks) + verifOtherFields(z)
+}
+
+// verifOtherFields renders every field of the client this file does not know by name (a cache a
+// change may have added is state that decides futures: without it the searches would merge states
+// that differ only in it and prune behaviours silently). Maps (the sync shim's Map has a Range
+// method) are listed sorted, scalars printed, everything else reduced to nil-ness.
+func verifOtherFields(z *zkDCS) string {
+	known := map[string]bool{"logger": true, "config": true, "conn": true, "eventsChan": true, "lockHeld": true, "disconnectCallback": true,
+		"isConnected": true, "connectedChans": true, "connectedLock": true, "closeTimer": true, "acl": true}
+	v := reflect.ValueOf(z).Elem()
+	t := v.Type()
+	var out []string
+	for i := 0; i < t.NumField(); i++ {
+		name := t.Field(i).Name
+		if known[name] {
+			continue
+		}
+		f := reflect.NewAt(t.Field(i).Type, unsafe.Pointer(v.Field(i).UnsafeAddr()))
+		out = append(out, name+"="+verifRender(f))
+	}
+	if len(out) == 0 {
+		return ""
+	}
+	return " other{" + strings.Join(out, " ") + "}"
+}
+
+// VerifRenderField renders the value a pointer (obtained with reflect.NewAt) points to: maps sorted,
+// scalars printed, everything else reduced to nil-ness. For the canonical states of other drivers.
+func VerifRenderField(ptr reflect.Value) string { return verifRender(ptr) }
+
+func verifRender(ptr reflect.Value) string {
+	if m := ptr.MethodByName("Range"); m.IsValid() && m.Type().NumIn() == 1 {
+		var items []string
+		fn := reflect.MakeFunc(m.Type().In(0), func(args []reflect.Value) []reflect.Value {
+			items = append(items, fmt.Sprintf("%v:%s", args[0].Interface(), verifScalar(reflect.ValueOf(args[1].Interface()))))
+			return []reflect.Value{reflect.ValueOf(true)}
+		})
+		m.Call([]reflect.Value{fn})
+		sort.Strings(items)
+		return "[" + strings.Join(items, ",") + "]"
+	}
+	return verifScalar(ptr.Elem())
+}
+
+func verifScalar(v reflect.Value) string {
+	if !v.IsValid() {
+		return "nil"
+	}
+	switch v.Kind() {
+	case reflect.Bool, reflect.Int, reflect.Int8, reflect.Int16, reflect.Int32, reflect.Int64, reflect.Uint, reflect.Uint8, reflect.Uint16, reflect.Uint32, reflect.Uint64, reflect.String, reflect.Float32, reflect.Float64:
+		return fmt.Sprint(v.Interface())
+	case reflect.Map:
+		var items []string
+		for _, k := range v.MapKeys() {
+			items = append(items, fmt.Sprintf("%v:%s", k.Interface(), verifScalar(v.MapIndex(k))))
+		}
+		sort.Strings(items)
+		return "{" + strings.Join(items, ",") + "}"
+	case reflect.Slice:
+		return fmt.Sprintf("len%d", v.Len())
+	case reflect.Ptr, reflect.Interface, reflect.Chan, reflect.Func:
+		if v.IsNil() {
+			return "nil"
+		}
+		return "set"
+	case reflect.Struct:
+		if t, ok := v.Interface().(time.Time); ok {
+			return time.Since(t).Truncate(time.Second).String()
+		}
+	}
+	return v.Kind().String()
 }
 
 // VerifClient returns the fake client handle behind a zkDCS.
